@@ -270,7 +270,10 @@ impl dyn Submessage + Send + '_ {
         let pos = buf.position();
         buf.set_position(header_position);
         let len = pos - elements_position;
-        self.write_submessage_header_into_bytes(len as u16, buf);
+        // A submessage longer than 65535 octets can only be the last one of a message and is then
+        // announced with octetsToNextHeader = 0 (RTPS 8.3.3.2.3)
+        let octets_to_next_header = u16::try_from(len).unwrap_or(0);
+        self.write_submessage_header_into_bytes(octets_to_next_header, buf);
         buf.set_position(pos);
     }
 }
